@@ -945,7 +945,7 @@ def mpf_zeta_int(s, prec, rnd=round_fast):
                         break
                     a = mpf_sub(fone, mpf_pow_int(from_int(k), -s, powprec), wp)
                     t = mpf_mul(t, a, wp)
-                return mpf_div(fone, t, wp)
+                return mpf_div(fone, t, prec, rnd)
     # Use Borwein's algorithm
     n = int(wp/2.54 + 5)
     d = borwein_coefficients(n)
